@@ -265,6 +265,10 @@ def check_unit(ctx, case):
     for c in range(query.shape[0]):
         for it, s in enumerate(subsets):
             ctx.evaluations += 1
+            if eu.fragile_constant(query[c, s]) or \
+                    eu.fragile_constant(refs[:, s]):
+                ctx.count('unit:fragile-constant-row')
+                continue
             fr = eu.float_corr(refs[:, s], query[c, s])
             j = nn[it][c]
             if not (0 <= j < n_leaves):
